@@ -296,6 +296,22 @@ def check(ctx: Ctx) -> list[RuleResult]:
             mg, mn = mutated[k][0]
             r6.fail(f"{g.short}:cached-factory-of-mutated-class:{k.rsplit('.', 1)[-1]}", g.loc(), f"{g.short} is memoised and returns a {k.rsplit('.', 1)[-1]}, but instances of that class are rewritten in place ({mg.short}: `{norm(getattr(mn, 'parent', mn))[:60]}`): what one send did to its object is handed to the next caller with the same arguments - e.g. a later RQ|0418 sent with wait_for_reply=True returns its echo instead of the reply")
     out.append(r6)
+    # ---- R7 ---------------------------------------------------------------------------
+    # "plus only the time taken by a mandatory impersonation notice sent ahead of it": the notice is *awaited* where it is sent - it
+    # goes out before the command, and its failure is the caller's failure (a protocol error from the send call). Fired off as a task
+    # it races the command to the queue, and a failed notice ends as an exception nobody retrieves, inside the event loop
+    r7 = RuleResult("R7", "the impersonation notice is sent ahead and awaited", "every call of _send_impersonation_alert is the operand of an await in the sender", min_instances=1)
+    alert_calls = [(g, n) for g in repo.funcs.values() if g.module.name == P for n in own_nodes(g.node) if isinstance(n, ast.Call) and isinstance(n.func, ast.Attribute) and n.func.attr == "_send_impersonation_alert"]
+    if not alert_calls:
+        raise AnalysisError("no call of _send_impersonation_alert found")
+    for g, n in alert_calls:
+        r7.instances += 1
+        r7.nontrivial += 1
+        if isinstance(getattr(n, "parent", None), ast.Await):
+            r7.ok({"site": f"{g.short}: await {norm(n)[:50]}"})
+        else:
+            r7.fail(f"{g.short}:impersonation-alert-not-awaited", g.loc(n), f"`{norm(getattr(n, 'parent', n))[:70]}` does not await the impersonation notice: it is no longer sent ahead of the command, and if its own send fails the ProtocolSendFailed is stranded in a task nobody awaits ('Task exception was never retrieved' in the event loop)")
+    out.append(r7)
     borrow(ctx, out, "c06", ["R3"], "the packet handed to the caller is the one whose whole header matched")
     borrow(ctx, out, "c08", ["R4", "R5"], "one in flight; an unorderable queue entry raises TypeError out of send_cmd and wedges the dequeue")
     borrow(ctx, out, "c09", ["R1", "R3", "R4", "R6"], "an exception inside the FSM's callbacks leaves the caller unanswered until its timeout")
